@@ -20,6 +20,9 @@ for mid in ids:
     if not os.path.exists(os.path.join(d, "meta.json")):
         continue
     meta = json.load(open(os.path.join(d, "meta.json")))
+    if str(meta.get("status", "")).startswith("retired"):
+        results[mid] = {"retired": meta["status"]}
+        print(mid, "retired"); continue
     prop = mid[:3]
     # the change is applied in a scratch worktree of /repo's HEAD (never in /repo itself); the checks build from it
     wt = "/tmp/wt-seeded-%s-%d" % (mid, os.getpid())
